@@ -99,8 +99,10 @@ class Lexer:
     def __init__(self, *, env: JSONPathEnvironment) -> None:
         self.env = env
 
-        self.double_quote_pattern = r'"(?P<G_DQUOTE>(?:(?!(?<!\\)").)*)"'
-        self.single_quote_pattern = r"'(?P<G_SQUOTE>(?:(?!(?<!\\)').)*)'"
+        # A closing quote is one that is not escaped. An escape is a backslash
+        # followed by any character, so a name ending in an escaped backslash ends there.
+        self.double_quote_pattern = r'"(?P<G_DQUOTE>(?:\\.|[^"\\])*)"'
+        self.single_quote_pattern = r"'(?P<G_SQUOTE>(?:\\.|[^'\\])*)'"
 
         # .thing
         self.dot_property_pattern = rf"\.(?P<G_PROP>{self.key_pattern})"
